@@ -21,7 +21,7 @@ OWNER = {"C01": "C01", "C02": "C02", "C03": "C03", "C04": "C04", "C14": "C14", "
 PROPS = {
     "C01": dict(modes={"quick": [("path", "quick"), ("regexpos", "quick")], "thorough": [("path", "thorough"), ("headers", "quick"), ("regexpos", "quick")]},
                 plan=dict(perms=0, slash=False, entries=["D", "S"], conc=8),
-                random={"quick": [("mixed", 350, 24), ("headers", 150, 30)],
+                random={"quick": [("mixed", 220, 20), ("headers", 80, 24)],
                         "thorough": [("mixed", 4000, 30), ("headers", 1500, 40)]},
                 counter="judged",
                 rule="cases = (route table, request) pairs: every table of MC_Routing's pools with requests derived "
@@ -31,8 +31,8 @@ PROPS = {
                      "route function ran (the property's antecedent)."),
     "C02": dict(modes={"quick": [("headers", "quick"), ("roots", "quick"), ("regexpos", "quick")],
                        "thorough": [("headers", "thorough"), ("roots", "thorough"), ("path", "quick"), ("regexpos", "quick")]},
-                plan=dict(perms=0, slash=False, entries=["D", "S"], conc=8),
-                random={"quick": [("headers", 250, 30), ("mixed", 250, 24)],
+                plan=dict(perms=0, slash=False, entries=["D", "S"]),
+                random={"quick": [("headers", 150, 24), ("mixed", 150, 20)],
                         "thorough": [("headers", 3000, 40), ("mixed", 3000, 30)]},
                 tracing_twin=True,
                 counter="judged",
@@ -42,8 +42,8 @@ PROPS = {
                      "405/415/406 was chosen)."),
     "C03": dict(modes={"quick": [("path", "quick"), ("roots", "quick"), ("order3", "quick"), ("roots4", "quick"), ("media", "quick")],
                        "thorough": [("path", "thorough"), ("roots", "thorough"), ("order3", "quick"), ("roots4", "quick"), ("media", "quick")]},
-                plan=dict(perms=3, slash=False, entries=["D"], conc=8),
-                random={"quick": [("mixed", 300, 20)], "thorough": [("mixed", 4000, 30)]},
+                plan=dict(perms=3, slash=False, entries=["D"]),
+                random={"quick": [("mixed", 200, 16)], "thorough": [("mixed", 4000, 30)]},
                 counter="dominance",
                 rule="every table is built in 4 registration orders (given, reversed, 2 seeded shuffles) per router as "
                      "separate real containers; outcomes are compared across orders and judged against dominance. "
@@ -51,13 +51,13 @@ PROPS = {
                      "competed, counted by the trace spec."),
     "C04": dict(modes={"quick": [("path", "quick"), ("regexpos", "quick")], "thorough": [("path", "thorough"), ("regexpos", "quick")]},
                 plan=dict(perms=0, slash=True, entries=["D"], conc=8),
-                random={"quick": [("mixed", 400, 24)], "thorough": [("mixed", 5000, 30)]},
+                random={"quick": [("mixed", 220, 20)], "thorough": [("mixed", 5000, 30)]},
                 counter="params",
                 rule="cases as for C01; Request.PathParameters() is read inside the invoked handler. Non-trivial = "
                      "judged route outcomes that bind at least one parameter, counted by the trace spec."),
     "C14": dict(modes={"quick": [("path", "quick"), ("roots", "quick")], "thorough": [("path", "thorough"), ("roots", "thorough"), ("headers", "quick")]},
                 plan=dict(perms=0, slash=True, entries=["D"]),
-                random={"quick": [("slash", 350, 24)], "thorough": [("slash", 4000, 30), ("headers", 1000, 30)]},
+                random={"quick": [("slash", 220, 20)], "thorough": [("slash", 4000, 30), ("headers", 1000, 30)]},
                 counter="slashTwins",
                 rule="every request path p without trailing slash is sent as p and as p/ to the same real container; "
                      "Non-trivial = request pairs that qualify (>= 1 non-empty segment; RouterJSR311 only on tables "
